@@ -494,3 +494,9 @@ package interpreter
 //@   requires val != nil && low != nil && high != nil
 //@   nofail
 //@   ensures[C17] iff(result, big(low) <= big(val) && big(val) <= big(high))
+
+// ---- C17: the dispatch table behind fromBigEndianBytes (interpreter.BigEndianBytesConverters, contents read from the
+// real package initialiser). The fixed-size types are checked together with their round-trip harnesses (generated);
+// Int and UInt are unbounded: their entries hold their constructors and impose no length limit, so that
+// fromBigEndianBytes(toBigEndianBytes(x)) is not rejected for large x.
+//@ theorem[C17] T_unbounded_types_have_no_byte_limit() = tblis("interpreter.BigEndianBytesConverters", "Int", "Converter", "interpreter.NewIntValueFromBigEndianBytes") && tbl("interpreter.BigEndianBytesConverters", "Int", "ByteLength") == 0 && tblis("interpreter.BigEndianBytesConverters", "UInt", "Converter", "interpreter.NewUIntValueFromBigEndianBytes") && tbl("interpreter.BigEndianBytesConverters", "UInt", "ByteLength") == 0
